@@ -3,8 +3,7 @@
     node or a hash link is visited), and every name written is a name the returned root reaches:
     no garbage.  Lemma file. *)
 From Coq Require Import List NArith ZArith Lia Bool Arith.
-From Mast Require Import Prim Key Tree KeyOrder Codec Store Diff Erase Build Spec Canon Links Level Inv Persist Hist Reload DiffSpec DiffLinks.
-From Mast Require Import ReloadB.
+From Mast Require Import Prim Key Tree KeyOrder Codec Store Diff Erase Build Spec Canon Links Level Inv Persist Hist Reload DiffSpec DiffLinks CostW.
 Import ListNotations.
 
 Opaque name_of blake2b_256 b64url crc64 uint_layer_fuel.
@@ -86,7 +85,48 @@ Proof.
 Qed.
 
 (** * the 2*height+2 bound: one Insert into a freshly loaded version, then a persist *)
-From Mast Require Import CostW.
+Section FMT.
+(* the node format of the store the tree was loaded from *)
+Variable fmt : nfmt.
+Local Notation clone_allh := (Reload.clone_allh fmt) (only parsing).
+Local Notation cycles_ok := (Reload.cycles_ok fmt) (only parsing).
+Local Notation delete_allh := (Reload.delete_allh fmt) (only parsing).
+Local Notation entry_ok := (Reload.entry_ok fmt) (only parsing).
+Local Notation first_node_allh := (Reload.first_node_allh fmt) (only parsing).
+Local Notation flush_nonnil := (Reload.flush_nonnil fmt) (only parsing).
+Local Notation grow_allh := (Reload.grow_allh fmt) (only parsing).
+Local Notation grow_loop_allh := (Reload.grow_loop_allh fmt) (only parsing).
+Local Notation insert_allh := (Reload.insert_allh fmt) (only parsing).
+Local Notation kv_ok := (Reload.kv_ok fmt) (only parsing).
+Local Notation list_ok := (Reload.list_ok fmt) (only parsing).
+Local Notation list_ok_incl := (Reload.list_ok_incl fmt) (only parsing).
+Local Notation list_ok_remove := (Reload.list_ok_remove fmt) (only parsing).
+Local Notation load_canon := (Reload.load_canon fmt) (only parsing).
+Local Notation load_canon_empty := (Reload.load_canon_empty fmt) (only parsing).
+Local Notation name_ok := (Reload.name_ok fmt) (only parsing).
+Local Notation pcond := (Reload.pcond fmt) (only parsing).
+Local Notation pconds := (Reload.pconds fmt) (only parsing).
+Local Notation persist_then_load := (Reload.persist_then_load fmt) (only parsing).
+Local Notation pinv := (Reload.pinv fmt) (only parsing).
+Local Notation prun := (Reload.prun fmt) (only parsing).
+Local Notation pstep := (Reload.pstep fmt) (only parsing).
+Local Notation pstep_ok := (Reload.pstep_ok fmt) (only parsing).
+Local Notation resolve_sto := (Reload.resolve_sto fmt) (only parsing).
+Local Notation root_allh := (Reload.root_allh fmt) (only parsing).
+Local Notation root_allh_mono := (Reload.root_allh_mono fmt) (only parsing).
+Local Notation root_allh_of_node := (Reload.root_allh_of_node fmt) (only parsing).
+Local Notation root_node_allh := (Reload.root_node_allh fmt) (only parsing).
+Local Notation set_size_allh := (Reload.set_size_allh fmt) (only parsing).
+Local Notation shrink_allh := (Reload.shrink_allh fmt) (only parsing).
+Local Notation shrink_loop_allh := (Reload.shrink_loop_allh fmt) (only parsing).
+Local Notation stl := (Reload.stl fmt) (only parsing).
+Local Notation sto := (Reload.sto fmt) (only parsing).
+Local Notation sto_hered := (Reload.sto_hered fmt) (only parsing).
+Local Notation sto_l := (Reload.sto_l fmt) (only parsing).
+Local Notation sto_l_mono := (Reload.sto_l_mono fmt) (only parsing).
+Local Notation sto_mono := (Reload.sto_mono fmt) (only parsing).
+Local Notation sto_mono' := (Reload.sto_mono' fmt) (only parsing).
+Local Notation store_node_sto := (Reload.store_node_sto fmt) (only parsing).
 
 Lemma dcount_le_pcount : forall n : knode, dcount n <= pcount key val n.
 Proof.
@@ -177,3 +217,4 @@ Proof.
   destruct (store_node_count fuel f n' ts r E) as [Hlen _]. rewrite Hlen. pose proof (dcount_le_pcount n') as Hd.
   split; [lia|]. intros Hne. destruct ops as [|o r0]; [congruence|]. cbn [length] in *. nia.
 Qed.
+End FMT.
